@@ -82,6 +82,7 @@ func c10(r *h.Result, rng *h.Rng, tier string, replay string) error {
 		"grammar: one case per token-capturing grammar field (Gen.GrammarFields). jsonparser: 600 (quick) / 20000 `| json` queries with 1–3 parameters of 1–4 path parts (identifier, [N], quoted name; a third of the names digit-led), distinct by query. " +
 		"format: 400 (quick) / 12000 objects, half line_format templates of 0–5 pieces (hostile text incl. `{0}`, quotes, backslashes; `{{.field}}`, chained fields, string nodes), half label_format stages of 1–3 operations (rename / template constant), distinct by template. " +
 		"tempo: 400 / 12000: 3/4 searches with 0–3 tags (names/values hostile valid UTF-8, literal or quoted syntax; the four conditions; from/to/min/max/limit at 0 and not; schema version flag on/off/late), 1/4 trace-by-id + tag-values with arbitrary bytes. " +
+		"shape-metric: 400 / 12000 metric queries of C08's generator (range / vector aggregation / topk, unwrap, by/without, comparisons, ms durations) paired the same way. " +
 		"shape: 400 / 12000 queries of C07's extended generator, each paired with a copy whose string leaves are all replaced (hostile text), distinct by pair. " +
 		"text/tags/fpsql/profsql/textx/model-series: the generators of C07, C08, C11, C17, C07ext, C13, 150 (quick) / 3000 cases each"
 	if err := c10Escape(r, rng.Fork(), n); err != nil {
@@ -127,6 +128,9 @@ func c10(r *h.Result, rng *h.Rng, tier string, replay string) error {
 		return err
 	}
 	if err := c10Shape(r, rng.Fork(), no); err != nil {
+		return err
+	}
+	if err := c10ShapeMetric(r, rng.Fork(), no); err != nil {
 		return err
 	}
 	if err := c10Census(r); err != nil {
